@@ -174,9 +174,9 @@ func (m *machine) transition(path []op, o op, compare bool, prevImpl []string) (
 	mkey = w.key(m.objs)
 
 	key := m.tag + "/" + pathID(path) + "/" + o.id()
-	r.Begin(key)
+	objdrv.Begin(r, key)
 	obsOutcome, obsParts, ikey := m.runImpl(path, o)
-	r.End()
+	objdrv.End()
 
 	agree = expOutcome == obsOutcome
 	type diff struct{ label, exp, obs string }
